@@ -14,8 +14,8 @@
     workspace_symbol.go   extractSymbols with the empty query
     links.go              DocumentLink ranges
     folding.go            findTransactionFolds, findDirectiveFolds, findCommentBlockFolds
-    completion.go         calculateTextEditRange, findCommodityStart, parsePosting,
-                          findDoublespace, findAmountEnd   (the completion context is an input)
+    completion.go         calculateTextEditRange (placement and uint32 conversion; the line-level
+                          function is HL.Completion.editRange; the completion context is an input)
     inline_completion.go  the edit range of the item
 
   Input: the syntax tree produced by the real parser (`HL.Ast.Journal`), the text as
@@ -30,6 +30,7 @@
 -/
 import HL.Model.Ast
 import HL.Model.Text
+import HL.Model.Completion
 namespace HL.Ranges
 open HL HL.Ast HL.Text
 
@@ -43,16 +44,14 @@ deriving Repr, DecidableEq, Inhabited, BEq
 
 /-- Which of the delivered repairs the code under test contains (the harness probes the real
     functions with canary inputs).  `false` everywhere = the tree as pinned.
-    clamp: repo_patches/fix-completion-edit-start.diff, link: fix-link-range.diff,
-    fold: fix-fold-ranges.diff. -/
+    link: fix-link-range.diff (upstream 04b7a3e), fold: fix-fold-ranges.diff (upstream 4d2f7df). -/
 structure Fixes where
-  clamp : Bool
   link : Bool
   fold : Bool
 deriving Repr, DecidableEq, Inhabited
 
-def Fixes.pinned : Fixes := ⟨false, false, false⟩
-def Fixes.all : Fixes := ⟨true, true, true⟩
+def Fixes.pinned : Fixes := ⟨false, false⟩
+def Fixes.all : Fixes := ⟨true, true⟩
 
 /-- `uint32(x - 1)` for a Go `int` `x ≥ 0`: zero wraps to 4294967295. -/
 def m1 (n : Nat) : UInt32 := if n = 0 then 0xFFFFFFFF else UInt32.ofNat (n - 1)
@@ -500,79 +499,29 @@ def foldingRanges (fx : Fixes) (doc : Txt) (j : Journal) : List Fold :=
 
 /-! ### Completion edit range -/
 
-/-- `findDoublespace` (index in chars; the bytes before it are whole runes). -/
-def findDoublespace : Txt → Nat → Option Nat
-  | a :: b :: rest, i => if a == ' ' && b == ' ' then some i else findDoublespace (b :: rest) (i + 1)
-  | _, _ => none
-
 def isDigitC (c : Char) : Bool := '0' ≤ c && c ≤ '9'
-def isDigitOrSign (c : Char) : Bool := isDigitC c || c == '-' || c == '+'
 
-/-- `findAmountEnd`, as the number of chars consumed. -/
-def findAmountEnd (s : Txt) : Nat :=
-  let (n0, s) := match s with
-    | '(' :: r => (1, r)
-    | _ => (0, s)
-  let (n1, s) := match s with
-    | c :: _ => if !isDigitOrSign c then
-        let k := (s.takeWhile fun c => !isDigitOrSign c && c != ' ' && c != ')').length
-        (k, s.drop k) else (0, s)
-    | [] => (0, s)
-  let k2 := (s.takeWhile fun c => c == '-' || c == '+').length
-  let s := s.drop k2
-  let k3 := (s.takeWhile fun c => isDigitC c || c == '.' || c == ',' || c == '_').length
-  let s := s.drop k3
-  let n4 := match s with
-    | ')' :: _ => 1
-    | _ => 0
-  n0 + n1 + k2 + k3 + n4
+/-- `CompletionContextType` as sent by the harness (1 account, 2 payee, 3 commodity). -/
+def ctxOf : Nat → HL.Completion.Ctx
+  | 1 => .account
+  | 2 => .payee
+  | 3 => .commodity
+  | _ => .unknown
 
-/-- `findCommodityStart` (char index into the line; `k` = char index of the cursor). -/
-def findCommodityStart (line : Txt) (k : Nat) : Nat :=
-  let trimmed := line.dropWhile isBlankTab
-  let indent := line.length - trimmed.length
-  match findDoublespace trimmed 0 with
-  | none => k
-  | some sep =>
-    let afterSep := trimmed.drop sep
-    let afterAccount := afterSep.dropWhile (· == ' ')
-    let skip := afterSep.length - afterAccount.length
-    let start := indent + sep + skip + findAmountEnd afterAccount
-    start + ((line.drop start).takeWhile (· == ' ')).length
-
-/-- The payee branch of `calculateTextEditRange`. -/
-def payeeStart (line : Txt) (k : Nat) : Nat :=
-  let before := line.take k
-  match before.findIdx? (· == ' ') with
-  | none => 0
-  | some sp =>
-    let start := sp + 1
-    start + (((line.take k).drop start).takeWhile fun c => c == ' ' || c == '*' || c == '!').length
-
-/-- `calculateTextEditRange`; `ctx` is `CompletionContextType` (1 account, 2 payee, 3 commodity). -/
-def textEditRange (fx : Fixes) (doc : Txt) (c : Cur) (ctx : Nat) : Option LRange :=
+/-- `calculateTextEditRange` (as repaired upstream by a42bf24: it looks at the text before the
+    cursor only).  The line-level function is the completion builder's transcription
+    `HL.Completion.editRange true` (HL/Model/Completion.lean); here it is placed on the cursor's
+    line and converted to `uint32`. -/
+def textEditRange (doc : Txt) (c : Cur) (ctx : Nat) : Option LRange :=
   match (lines doc)[c.line]? with
   | none => none
   | some line =>
-    let k := takeU16 line c.char
-    let start : Option Nat :=
-      if ctx == 1 then
-        if "account ".toList.isPrefixOf line then some 8
-        else if "apply account ".toList.isPrefixOf line then some 14
-        else some (k - ((line.take k).dropWhile isBlankTab).length)
-      else if ctx == 3 then
-        if "commodity ".toList.isPrefixOf line then some 10
-        else some (findCommodityStart line k)
-      else if ctx == 2 then some (payeeStart line k)
-      else none
-    start.map fun st =>
-      -- fix-completion-edit-start.diff: `if startByte > byteCol { startByte = byteCol }`
-      let st := if fx.clamp then min st k else st
-      ⟨UInt32.ofNat c.line, UInt32.ofNat (u16len (line.take st)), UInt32.ofNat c.line, UInt32.ofNat c.char⟩
+    (HL.Completion.editRange true (ctxOf ctx) line c.char).map fun se =>
+      ⟨UInt32.ofNat c.line, UInt32.ofNat se.1, UInt32.ofNat c.line, UInt32.ofNat c.char⟩
 
 /-- `Completion`: the edit range carried by the items (none when there are no items). -/
-def completionEdits (fx : Fixes) (doc : Txt) (c : Cur) (ctx nitems : Nat) : List LRange :=
-  if nitems = 0 then [] else (textEditRange fx doc c ctx).toList
+def completionEdits (doc : Txt) (c : Cur) (ctx nitems : Nat) : List LRange :=
+  if nitems = 0 then [] else (textEditRange doc c ctx).toList
 
 /-- `InlineCompletion`: the item's range. -/
 def inlineEdits (c : Cur) (nitems : Nat) : List LRange :=
